@@ -203,6 +203,8 @@ def check_C07(tier, seed):
     res = run_tlc("MC_SP.tla", os.path.join("mc", "sp_quick.cfg"))
     v.add_tlc("sp_quick.cfg", res, ["P_C17_DirsNeverMatch"])
     spcheck.replay(v, exe, res, seed=seed, tag="C07sp", sigprefix="searchpath", only_balance=True)
+    # parses started from inside a callback (into a second context, into the context itself), also inside included files
+    run_nest(v, exe, tier, seed, "C07nest")
     v.cov["exhaustive"] = True
     return v.finish(rule="every token sequence up to the configured length (every cut and corruption point of every short text) "
                          "over schemas with pointer-valued options, lists, nested and titled sections (replacement in place) and functions, "
